@@ -339,9 +339,9 @@ func c14StoredHash(c *Check) {
 				return true
 			}
 			msg = ""
-			// both indexes: parts[0] selects, parts[1] is verified
-			selIx, ok1 := ast.Unparen(sel.Index).(*ast.IndexExpr)
-			argIx, ok2 := ast.Unparen(call.Args[1]).(*ast.IndexExpr)
+			// both indexes: parts[0] selects, parts[1] is verified (possibly through single-definition locals)
+			selIx, ok1 := ast.Unparen(resolveLocal(info, body, sel.Index)).(*ast.IndexExpr)
+			argIx, ok2 := ast.Unparen(resolveLocal(info, body, call.Args[1])).(*ast.IndexExpr)
 			if !ok1 || !ok2 || objOf(info, selIx.X) == nil || objOf(info, selIx.X) != objOf(info, argIx.X) {
 				msg = "the verifier is not selected by, and applied to, the two parts of one and the same value"
 				return false
@@ -359,14 +359,8 @@ func c14StoredHash(c *Check) {
 				msg = "the verified value is not a split of the stored value"
 				return false
 			}
-			hash := objOf(info, pc.Args[0])
-			if hash == nil {
-				msg = "the split value is not a local variable"
-				return false
-			}
-			hdef, nh := localDef(info, body, hash)
-			hc, ok := ast.Unparen(hdef).(*ast.CallExpr)
-			if !ok || nh != 1 || methodName(hc) != "Lookup" || !isField(info, callRecv(hc), "Auth", "table") {
+			hc, ok := ast.Unparen(resolveLocal(info, body, pc.Args[0])).(*ast.CallExpr)
+			if !ok || methodName(hc) != "Lookup" || !isField(info, callRecv(hc), "Auth", "table") {
 				msg = "the verified value is not the result of looking the key up in the credentials table"
 				return false
 			}
